@@ -125,11 +125,33 @@ func genComponents(r *prng.Rand, family string, k, n int) ([]compSpec, []float64
  * -------------------------------------------------------------------------- */
 
 type trajectory struct {
-	nanComponent bool  // a component density evaluated to NaN on an observation
+	// modelW: log-likelihood weighted with the estimator's own observation
+	// weights (nested use: Estimate(gamma, ...)); that is what the M-step
+	// maximises then, the monotonicity assertion uses it instead of model
+	modelW       []float64
+	nanComponent bool // a component density evaluated to NaN on an observation
+	nanParams    bool // the model handed to a hook has NaN parameters
+	nanParamsAt  []bool
+	floorActive  bool // a vector-normal component sits on the variance floor (d >= 2)
+	family       string
+	finalSet     bool // HMM with a final-state restriction
+	illCond      string // spread class of normal data when |mean|/sd >= 1e4
 	reported []float64 // likelihood handed to hook i (NaN for i = 0)
 	model    []float64 // log-likelihood of the model handed to hook i, by LogPdf
 	tol      []float64 // rounding allowance of model[i]
 	evalErr  error
+}
+
+// noteParams flags NaN parameters of the model handed to a hook.
+func (t *trajectory) noteParams(p ad.Vector) {
+	if p == nil {
+		return
+	}
+	for i := 0; i < p.Dim(); i++ {
+		if math.IsNaN(p.At(i).GetFloat64()) {
+			t.nanParams = true
+		}
+	}
 }
 
 func (t *trajectory) record(i int, reported, model, tol float64) {
@@ -137,8 +159,11 @@ func (t *trajectory) record(i int, reported, model, tol float64) {
 		t.reported = append(t.reported, math.NaN())
 		t.model = append(t.model, math.NaN())
 		t.tol = append(t.tol, 0)
+		t.nanParamsAt = append(t.nanParamsAt, false)
 	}
 	t.reported[i], t.model[i], t.tol[i] = reported, model, tol
+	// noteParams is called before record in every hook
+	t.nanParamsAt[i] = t.nanParams
 }
 
 // judgeTrajectory checks the pairing reported(i+1) == model(i) and that the
@@ -163,29 +188,59 @@ func judgeTrajectory(cs *fw.Case, t *trajectory, sigBase string, exactM bool, wi
 	if !exactM {
 		return
 	}
-	for i := 0; i+1 < n; i++ {
-		a, b := t.model[i], t.model[i+1]
+	series := t.model
+	if t.modelW != nil {
+		series = t.modelW
+		wit["weighted_model_loglik"] = jsonFloats(series)
+	}
+	for i := 0; i+1 < n && i+1 < len(series); i++ {
+		a, b := series[i], series[i+1]
 		if math.IsNaN(a) || math.IsInf(a, -1) {
 			continue
 		}
 		cs.Cover("em:step-checked")
-		allow := monoAllowance*math.Abs(a) + t.tol[i] + t.tol[i+1]
+		allow := monoAllowance*math.Abs(a) + t.tol[i]
+		if !math.IsInf(t.tol[i+1], 0) && !math.IsNaN(t.tol[i+1]) {
+			allow += t.tol[i+1]
+		}
 		if math.IsNaN(b) || b < a-allow {
 			kind := "decrease"
 			sg := sigBase
 			if math.IsNaN(b) {
 				kind = "nan-likelihood"
-				if t.nanComponent {
-					// input class computed from the model: the M-step put a component
-					// onto a parameter for which its density is NaN on the data
-					sg = sigPrefix(sigBase) + "|component-density-nan"
+				if t.nanParamsAt[i+1] {
+					// input class computed from the model: the M-step produced NaN
+					// parameters (a component / state without any responsibility)
+					sg = "C16|em|" + t.family + "|component-parameters-nan"
+				} else if t.nanComponent {
+					// finite parameters on the boundary of the family for which the
+					// component density is NaN on the data
+					sg = "C16|em|" + t.family + "|component-density-nan"
 				}
+			} else if t.illCond != "" {
+				// one-pass moments of the normal estimators: the conditioning of the
+				// data decides, not the model around them
+				sg = "C16|em|normal-moments|" + t.illCond
+			} else if t.floorActive {
+				sg = "C16|em|vectorNormal|d>=2,floor-active"
+			} else if t.finalSet {
+				sg = "C16|em|hmm|final-state-set"
 			}
 			cs.Violation(sg+"|"+kind,
 				fmt.Sprintf("log-likelihood of the model after iteration %d is %.17g, after iteration %d it is %.17g: change %.6g (allowance %.3g)", i, a, i+1, b, b-a, allow), wit)
 			break
 		}
 	}
+}
+
+// illClass keeps the spread classes in which one-pass variance formulas lose
+// more than half of the digits.
+func illClass(spread string) string {
+	switch spread {
+	case "mean/sd<1e4", "mean/sd<1e6", "mean/sd>=1e6", "sd=0":
+		return spread
+	}
+	return ""
 }
 
 // sigPrefix drops the input-class field of a signature base.
@@ -215,7 +270,7 @@ func jsonFloats(x []float64) []any {
 // evaluated components.
 func mixtureLoglik(k int, n int, logw func(j int) float64, comp func(j, l int) (float64, error), logpdf func(l int) (float64, error), nanComp *bool) (float64, float64, error) {
 	var tot ksum
-	tol := 0.0
+	tol, finiteAbs := 0.0, 0.0
 	for l := 0; l < n; l++ {
 		v, err := logpdf(l)
 		if err != nil {
@@ -243,9 +298,12 @@ func mixtureLoglik(k int, n int, logw func(j int) float64, comp func(j, l int) (
 				}
 			}
 		}
-		tol += K * eps * (math.Abs(v) + A + float64(k))
+		if !math.IsInf(v, 0) && !math.IsNaN(v) {
+			tol += K * eps * (math.Abs(v) + A + float64(k))
+			finiteAbs += math.Abs(v)
+		}
 	}
-	tol += float64(n) * eps * tot.abs
+	tol += float64(n) * eps * finiteAbs
 	return tot.s, tol, nil
 }
 
@@ -291,18 +349,51 @@ func runEmScalarMixture(cs *fw.Case, r *prng.Rand) {
 		class += "," + spreadClass(d, 0)
 	}
 	sigBase := fmt.Sprintf("C16|%s|scalarMixture|%s|%s", cs.Monitor, family, class)
-	tr := &trajectory{}
+	tr := &trajectory{family: family}
+	if family == "normal" {
+		d := &dataset{X: asRows(x)}
+		d.prepare()
+		tr.illCond = illClass(spreadClass(d, 0))
+	}
 	hook := generic.EmHook{Value: func(mix generic.BasicMixture, i int, likelihood, eps float64) {
 		m, ok := mix.(*sd.Mixture)
 		if !ok {
 			return
 		}
-		v, tol, err := scalarMixtureLoglik(m.Clone(), x, &tr.nanComponent)
+		mc := m.Clone()
+		tr.noteParams(m.GetParameters())
+		for j := range m.Edist {
+			if nd, ok := m.Edist[j].(*sd.NormalDistribution); ok {
+				if mu, sg := nd.Mu.GetFloat64(), nd.Sigma.GetFloat64(); sg > 0 && math.Abs(mu)/sg >= 1e6 {
+					tr.illCond = "sd=0" // collapsed component: one-pass variance is rounding noise
+				}
+			}
+		}
+		v, tol, err := scalarMixtureLoglik(mc, x, &tr.nanComponent)
 		if err != nil {
 			tr.evalErr = err
 			v = math.NaN()
 		}
 		tr.record(i, likelihood, v, tol)
+		if meta != nil {
+			dm := &dataset{X: asRows(x), Gamma: meta}
+			dm.prepare()
+			var ws ksum
+			res := ad.NewFloat64(0.0)
+			for l, xv := range x {
+				if dm.w[l] > 0 {
+					if e := mc.LogPdf(res, ad.ConstFloat64(xv)); e != nil {
+						ws.add(math.NaN())
+					} else {
+						ws.add(dm.w[l] * res.GetFloat64())
+					}
+				}
+			}
+			for len(tr.modelW) <= i {
+				tr.modelW = append(tr.modelW, math.NaN())
+			}
+			tr.modelW[i] = ws.s
+		}
 	}}
 	var err error
 	p := fw.Call(func() {
@@ -328,7 +419,7 @@ func runEmScalarMixture(cs *fw.Case, r *prng.Rand) {
 // finishEm: common tail of the EM monitors.
 func finishEm(cs *fw.Case, tr *trajectory, p *fw.Panic, err error, sigBase string, exactM bool, wit map[string]any, nontrivial bool, id ...any) {
 	if p != nil {
-		cs.Violation(sigBase+"|panic", p.Msg+"\n"+p.Stack, wit)
+		cs.Violation(sigPrefix(sigPrefix(sigBase))+"|panic", p.Msg+"\n"+p.Stack, wit)
 		return
 	}
 	if err != nil {
@@ -348,6 +439,7 @@ func finishEm(cs *fw.Case, tr *trajectory, p *fw.Panic, err error, sigBase strin
 	}
 	if tr.evalErr != nil {
 		cs.Cover("em:model-evaluation-error")
+		wit["model_evaluation_error"] = tr.evalErr.Error()
 	}
 	judgeTrajectory(cs, tr, sigBase, exactM, wit)
 	if cs.Violations() == 0 && nontrivial && len(tr.reported) >= 2 {
@@ -431,13 +523,47 @@ func runEmVectorMixture(cs *fw.Case, r *prng.Rand) {
 	for i := range rows {
 		rows[i] = vecF(X[i])
 	}
-	tr := &trajectory{}
+	tr := &trajectory{family: kind}
+	if kind != "ScalarId:poisson" {
+		sp := "mean/sd<1e2"
+		for q := 0; q < dim; q++ {
+			if c := spreadClass(d, q); c > sp {
+				sp = c
+			}
+		}
+		tr.illCond = illClass(sp)
+	}
 	hook := generic.EmHook{Value: func(mix generic.BasicMixture, i int, likelihood, eps float64) {
 		m0, ok := mix.(*vd.Mixture)
 		if !ok {
 			return
 		}
 		m := m0.Clone()
+		for j := range m0.Edist {
+			tr.noteParams(m0.Edist[j].GetParameters())
+			if nd, ok := m0.Edist[j].(*vd.NormalDistribution); ok {
+				for q := 0; q < dim; q++ {
+					if nd.Sigma.At(q, q).GetFloat64() == smin && dim >= 2 {
+						tr.floorActive = true
+					}
+				}
+				// a component collapsed onto (nearly) identical points: its own
+				// |mean|/sd is beyond 1e6, the regime of the one-pass moment noise
+				if dim == 2 {
+					a, b, c := nd.Sigma.At(0, 0).GetFloat64(), nd.Sigma.At(1, 1).GetFloat64(), nd.Sigma.At(0, 1).GetFloat64()
+					if a*b-c*c < 1e-8*a*b {
+						tr.illCond = "sd=0"
+					}
+				}
+				for q := 0; q < dim; q++ {
+					mu, v := nd.Mu.At(q).GetFloat64(), nd.Sigma.At(q, q).GetFloat64()
+					if v > 0 && math.Abs(mu)/math.Sqrt(v) >= 1e6 {
+						tr.illCond = "sd=0"
+					}
+				}
+			}
+		}
+		tr.noteParams(m0.LogWeights)
 		res := ad.NewFloat64(0.0)
 		v, tol, err := mixtureLoglik(m.NComponents(), n,
 			func(j int) float64 { return m.LogWeights.At(j).GetFloat64() },
@@ -501,7 +627,7 @@ func hmmLoglik(core *generic.Hmm, nseq int, seqLen func(q int) int, logpdf func(
 		}
 	}
 	var tot ksum
-	tol := 0.0
+	tol, finiteAbs := 0.0, 0.0
 	for q := 0; q < nseq; q++ {
 		v, err := logpdf(q)
 		if err != nil {
@@ -531,8 +657,9 @@ func hmmLoglik(core *generic.Hmm, nseq int, seqLen func(q int) int, logpdf func(
 			f = 0
 		}
 		tol += K * eps * (math.Abs(f) + A + float64(n*m*m))
+		finiteAbs += math.Abs(f)
 	}
-	tol += float64(nseq) * eps * tot.abs
+	tol += float64(nseq) * eps * finiteAbs
 	return tot.s, tol, nil
 }
 
@@ -651,18 +778,25 @@ func runEmHmm(cs *fw.Case, r *prng.Rand, forceOptT *bool) {
 	case final != nil:
 		restr = "final"
 	}
-	class := fmt.Sprintf("%s,%s,%s", dclass, restr, map[bool]string{true: "m=1", false: "m>=2"}[m == 1])
-	if family == "normal" {
-		d := &dataset{X: asRows(cols[0])}
-		d.prepare()
-		class += "," + spreadClass(d, 0)
-	}
+	_ = dclass
+	class := fmt.Sprintf("%s,%s", restr, map[bool]string{true: "m=1", false: "m>=2"}[m == 1])
 	opt := ""
 	if !optT {
 		opt = ",OptimizeTransitions=false"
 	}
 	sigBase := fmt.Sprintf("C16|%s|%sHmm%s|%s|%s", cs.Monitor, kind, opt, family, class)
-	tr := &trajectory{}
+	tr := &trajectory{family: family, finalSet: final != nil}
+	if family == "normal" {
+		sp := "mean/sd<1e2"
+		for q := 0; q < dim; q++ {
+			dq := &dataset{X: asRows(cols[q])}
+			dq.prepare()
+			if c := spreadClass(dq, 0); c > sp {
+				sp = c
+			}
+		}
+		tr.illCond = illClass(sp)
+	}
 	res := ad.NewFloat64(0.0)
 	hook := generic.BaumWelchHook{Value: func(h generic.BasicHmm, i int, likelihood, eps float64) {
 		var v, tol float64
@@ -670,6 +804,7 @@ func runEmHmm(cs *fw.Case, r *prng.Rand, forceOptT *bool) {
 		switch hm := h.(type) {
 		case *vd.Hmm:
 			c := hm.Clone()
+			tr.noteParams(hm.GetParameters())
 			xs := make([]ad.ConstVector, nseq)
 			for q := range xs {
 				xs[q] = vecF(column(seqs[q], 0))
@@ -682,6 +817,7 @@ func runEmHmm(cs *fw.Case, r *prng.Rand, forceOptT *bool) {
 				}, &tr.nanComponent)
 		case *md.Hmm:
 			c := hm.Clone()
+			tr.noteParams(hm.GetParameters())
 			xs := make([]ad.ConstMatrix, nseq)
 			for q := range xs {
 				xs[q] = matF(seqs[q])
@@ -790,7 +926,12 @@ func runEmNested(cs *fw.Case, r *prng.Rand) {
 		class += "," + spreadClass(d, 0)
 	}
 	sigBase := fmt.Sprintf("C16|%s|nested:%s-of-mixtures|%s|%s", cs.Monitor, outer, family, class)
-	tr := &trajectory{}
+	tr := &trajectory{family: family}
+	if family == "normal" {
+		d := &dataset{X: asRows(x)}
+		d.prepare()
+		tr.illCond = illClass(spreadClass(d, 0))
+	}
 	res := ad.NewFloat64(0.0)
 	mkInner := func() ([]stat.ScalarEstimator, error) {
 		ests := make([]stat.ScalarEstimator, ko)
@@ -823,6 +964,7 @@ func runEmNested(cs *fw.Case, r *prng.Rand) {
 				if !ok {
 					return
 				}
+				tr.noteParams(m.GetParameters())
 				v, tol, e := scalarMixtureLoglik(m.Clone(), x, &tr.nanComponent)
 				if e != nil {
 					tr.evalErr = e
@@ -843,6 +985,7 @@ func runEmNested(cs *fw.Case, r *prng.Rand) {
 					return
 				}
 				c := hm.Clone()
+				tr.noteParams(hm.GetParameters())
 				xv := vecF(x)
 				v, tol, e := hmmLoglik(&c.Hmm, 1, func(int) int { return len(x) },
 					func(int) (float64, error) { err := c.LogPdf(res, xv); return res.GetFloat64(), err },
